@@ -5,6 +5,7 @@
    the same statement because the rationals are dense.  `tol` stands for the value epsilon*sqrt(n) computed by the
    code. *)
 From Coq Require Import List ZArith QArith Qabs Bool.
+From LN Require C01Q_Defs C01Q_Proofs C03_EllN.
 From LN Require Import C03_Defs C03_Proofs.
 From LNGen Require Import Src_c03.
 Import ListNotations.
@@ -151,7 +152,8 @@ Proof. exact ellipsoid_1d_halfwidth_refuted. Qed.
 Print Assumptions C03_ellipsoid_1d_halfwidth_refuted.
 
 (* n-D certificate: x* = c + L u with |u|_2 <= 1 (x* inside the ellipsoid of shape H = L L'), g a sub-gradient at c,
-   r >= sqrt(g'Hg) = |L'g|_2  ==>  f(c) - f(x* ) <= r.  That the deep-cut update keeps x* inside is NOT proved. *)
+   r >= sqrt(g'Hg) = |L'g|_2  ==>  f(c) - f(x* ) <= r.  (Factor form, over Q; the run theorems of section 6b carry the
+   inverse instead of a factor and re-prove the certificate in that form, C03_ellipsoid_nd_converged.) *)
 Theorem C03_ellipsoid_certificate : forall (f : vec -> Q) (n m : nat) (c g xs u : vec) (L : list vec) (r : Q),
   length c = n -> length xs = n ->
   (forall z, length z = n -> f c + dot g (vsub z c) <= f z) ->
@@ -161,11 +163,80 @@ Theorem C03_ellipsoid_certificate : forall (f : vec -> Q) (n m : nat) (c g xs u 
 Proof. exact ellipsoid_certificate. Qed.
 Print Assumptions C03_ellipsoid_certificate.
 
-(* what is not proved (searched on the implementation only) *)
-Definition C03_ellipsoid_nd_full_statement : Prop :=
-  forall (f : vec -> Q) (n : nat), (2 <= n)%nat ->
-  (* for every run of the deep-cut update from H0 = R^2 I with x* within R of x0, x* stays inside every ellipsoid;
-     and for n <= 6 the method reports `converged` within 20000 evaluations *) True.
+(* ---- 6b. ellipsoid, n >= 2: the deep-cut update keeps the lower level set -- hence the minimiser -- inside ------------------ *)
+(* Model: en_x / en_H / en_step / en_run of C03_Defs.v = the `else` branch of solver_ellipsoid_t::do_minimize as written,
+   over the field operations of C01Q_Defs (vectors = lists, matrices = lists of rows, [C01Q_Defs.mv] = matrix * vector,
+   [C01Q_Defs.dot] = inner product).  Statements hold over ANY ordered field [OF : C01Q_Proofs.ordered_field FO] (Leibniz
+   equality, positive cone); C01Q_Proofs.Qc_ordered_field (the extracted instance) and R_ordered_field are instances.
+   std::sqrt(gHg) is a witness s with s*s = g'Hg, 0 < s (always available over the reals).
+   [C03_EllN.ell_inv OF n x H P]: x has length n, P is the inverse of H on vectors of length n (H (P v) = v = P (H v)), both
+   symmetric (as bilinear forms), H positive definite.  [ell_in OF P x y]: (y - x)' P (y - x) <= 1.  [ole] is <=, [olt] is <.
+   [en_P] is the Sherman-Morrison inverse of the updated matrix (carried by the proof, not computed by the code). *)
+
+(* one update: for every convex fn with sub-gradient g at x, best value `best` <= fn x (alpha >= 0 -- what the code can
+   produce, state.fx() being the best value seen) and alpha = (fn x - best)/s < 1:
+   the invariant is preserved (H+ symmetric, positive definite, with inverse P+) and every point of the lower level set
+   {fn <= best} that was in the ellipsoid is in the new one *)
+Theorem C03_ellipsoid_deep_cut_contains :
+  forall (F : Type) (FO : C01Q_Defs.fops F) (OF : C01Q_Proofs.ordered_field FO)
+         (n : nat) (fn : list F -> F) (x g : list F) (H P : list (list F)) (s best : F),
+  (2 <= n)%nat -> C03_EllN.ell_inv OF n x H P -> length g = n ->
+  (forall z, length z = n ->
+     C03_EllN.ole OF (C01Q_Defs.fadd FO (fn x) (C01Q_Defs.dot FO g (C01Q_Defs.vsub FO z x))) (fn z)) ->
+  C03_EllN.olt OF (C01Q_Defs.f0 FO) s -> C01Q_Defs.fmul FO s s = en_gHg F FO H g ->
+  C03_EllN.ole OF best (fn x) -> C03_EllN.olt OF (C01Q_Defs.fsub FO (fn x) best) s ->
+  let nf := en_nat F FO n in
+  let alpha := en_alpha F FO s (fn x) best in
+  C03_EllN.ell_inv OF n (en_x F FO nf s alpha x H g) (en_H F FO nf alpha H g) (en_P F FO nf s alpha P g) /\
+  forall y, length y = n -> C03_EllN.ole OF (fn y) best -> C03_EllN.ell_in OF P x y ->
+            C03_EllN.ell_in OF (en_P F FO nf s alpha P g) (en_x F FO nf s alpha x H g) y.
+Proof. exact C03_EllN.ellipsoid_deep_cut_contains. Qed.
+Print Assumptions C03_ellipsoid_deep_cut_contains.
+
+(* every run: any list of oracle answers (value, sub-gradient, exact square root) of a convex fn with minimiser x*, started
+   from the ball H0 = R^2 I around x0 that contains x*: after the run x* is inside the current ellipsoid -- or the run hit the
+   degenerate cut alpha = 1, after which the centre IS x* (and from then on the best value is the minimum).  No hypothesis
+   on alpha: 0 <= alpha <= 1 is proved from the invariant. *)
+Theorem C03_ellipsoid_nd_invariant :
+  forall (F : Type) (FO : C01Q_Defs.fops F) (OF : C01Q_Proofs.ordered_field FO)
+         (n : nat) (fn : list F -> F) (xs x0 : list F) (R : F) (os : list (estep F)),
+  (2 <= n)%nat -> length xs = n -> (forall z, length z = n -> C03_EllN.ole OF (fn xs) (fn z)) ->
+  length x0 = n -> C03_EllN.olt OF (C01Q_Defs.f0 FO) R ->
+  C03_EllN.ole OF (C01Q_Defs.dot FO (C01Q_Defs.vsub FO xs x0) (C01Q_Defs.vsub FO xs x0)) (C01Q_Defs.fmul FO R R) ->
+  let st0 := mk_estate x0 (en_H0 F FO n R) (fn x0) in
+  C03_EllN.oracles_ok OF n fn st0 os ->
+  let st := en_run F FO (en_nat F FO n) st0 os in
+  C03_EllN.ole OF (fn xs) (ebest st) /\
+  (ebest st = fn xs \/ ex st = xs \/
+   exists P, C03_EllN.ell_inv OF n (ex st) (eH st) P /\ C03_EllN.ell_in OF P (ex st) xs).
+Proof. exact C03_EllN.ellipsoid_nd_invariant. Qed.
+Print Assumptions C03_ellipsoid_nd_invariant.
+
+(* the n >= 2 clause of the property for the exact-arithmetic model: when, after any run, the oracle answer o at the current
+   centre has g'Hg <= r^2 (r >= 0), the best value -- state.fx() after evaluating the centre, and after any further
+   evaluation f_next -- is within r of the minimum.  Both exits of the loop are instances: `converged = sqrt(gHg) < epsilon`
+   with r = s < epsilon (gap < epsilon <= 10 epsilon), and `gHg < macheps` with any r such that macheps <= r^2
+   (r = 2^-26: gap <= 1.5e-8 <= 10 epsilon for epsilon >= 1e-8). *)
+Theorem C03_ellipsoid_nd_converged :
+  forall (F : Type) (FO : C01Q_Defs.fops F) (OF : C01Q_Proofs.ordered_field FO)
+         (n : nat) (fn : list F -> F) (xs x0 : list F) (R : F) (os : list (estep F)) (o : estep F) (r : F),
+  (2 <= n)%nat -> length xs = n -> (forall z, length z = n -> C03_EllN.ole OF (fn xs) (fn z)) ->
+  length x0 = n -> C03_EllN.olt OF (C01Q_Defs.f0 FO) R ->
+  C03_EllN.ole OF (C01Q_Defs.dot FO (C01Q_Defs.vsub FO xs x0) (C01Q_Defs.vsub FO xs x0)) (C01Q_Defs.fmul FO R R) ->
+  let st0 := mk_estate x0 (en_H0 F FO n R) (fn x0) in
+  C03_EllN.oracles_ok OF n fn st0 os ->
+  let st := en_run F FO (en_nat F FO n) st0 os in
+  C03_EllN.oracle_ok OF n fn st o -> C03_EllN.ole OF (C01Q_Defs.f0 FO) r ->
+  C03_EllN.ole OF (en_gHg F FO (eH st) (eg o)) (C01Q_Defs.fmul FO r r) ->
+  forall f_next,
+    C03_EllN.ole OF (C01Q_Defs.fsub FO (en_best F FO (en_best F FO (ebest st) (ef o)) f_next) (fn xs)) r.
+Proof. exact C03_EllN.ellipsoid_nd_converged. Qed.
+Print Assumptions C03_ellipsoid_nd_converged.
+
+(* what is still not proved for n >= 2 (searched on the implementation only): floating-point rounding of the update, and
+   "for n <= 6 the method reports `converged` within 20000 evaluations" (termination / rate) *)
+Definition C03_ellipsoid_nd_not_proved : Prop :=
+  forall (n : nat), (2 <= n <= 6)%nat -> (* the real solver reports `converged` within 20000 evaluations *) True.
 
 (* ---- non-vacuity ---------------------------------------------------------------------------------------------------- *)
 Definition ex_eps0 : Q := 1 # 1000000000000000.
@@ -238,3 +309,45 @@ Example C03_delete_largest_witness :
   let arr := [0; 1; 2] in
   nth_post arr (Z.to_nat (src_c03_nth 3 2)) = true /\ (removed_count (nth 2 arr 0 - ex_eps0)%Q arr < 2)%nat.
 Proof. vm_compute. split; [reflexivity | apply le_n]. Qed.
+
+(* the deep-cut step evaluated: n = 2, H = P = I, x = 0, g = (3/5, 4/5), s = 1, fn x = 0, best = -1/4 (alpha = 1/4):
+   x+ = -(1/2) g,  H+ = (5/4)(I - (4/5) g g'),  and P+ is its inverse *)
+Local Notation q := C03_EllN.exq.
+Example C03_nonvacuous_deep_cut_step :
+  let I2 := [[q 1 1; q 0 1]; [q 0 1; q 1 1]] in
+  let g := [q 3 5; q 4 5] in
+  let alpha := en_alpha _ C01Q_Defs.QcO (q 1 1) (q 0 1) (q (-1) 4) in
+  let nf := en_nat _ C01Q_Defs.QcO 2 in
+  let th := map (map Qcanon.this) in
+  Qcanon.this (C01Q_Defs.fmul C01Q_Defs.QcO (q 1 1) (q 1 1)) = Qcanon.this (en_gHg _ C01Q_Defs.QcO I2 g) /\
+  Qcanon.this alpha = 1 # 4 /\
+  map Qcanon.this (en_x _ C01Q_Defs.QcO nf (q 1 1) alpha [q 0 1; q 0 1] I2 g) = [- 3 # 10; - 2 # 5] /\
+  th (en_H _ C01Q_Defs.QcO nf alpha I2 g) = [[89 # 100; - 12 # 25]; [- 12 # 25; 61 # 100]] /\
+  th (en_P _ C01Q_Defs.QcO nf (q 1 1) alpha I2 g) = [[244 # 125; 192 # 125]; [192 # 125; 356 # 125]] /\
+  th (C01Q_Defs.mmul C01Q_Defs.QcO (en_H _ C01Q_Defs.QcO nf alpha I2 g) (en_P _ C01Q_Defs.QcO nf (q 1 1) alpha I2 g)) = th I2 /\
+  (* the point y = -g (fn y = g.y = -1 <= best) of the old boundary is on the new boundary *)
+  Qcanon.this (en_form _ C01Q_Defs.QcO (en_P _ C01Q_Defs.QcO nf (q 1 1) alpha I2 g)
+                 (en_x _ C01Q_Defs.QcO nf (q 1 1) alpha [q 0 1; q 0 1] I2 g) [q (-3) 5; q (-4) 5]) = 1.
+Proof. cbv zeta. repeat split; vm_compute; reflexivity. Qed.
+
+(* a run satisfying all hypotheses of C03_ellipsoid_nd_invariant / _converged: fn z = (g.z)^2, x* = 0, x0 = (1,1), R = 2,
+   one step (s_1 = 28/5), then the oracle answer at the new centre (3/5, 7/15) with s_2 = 88/45 *)
+Example C03_nonvacuous_nd_run :
+  let OF := C01Q_Proofs.Qc_ordered_field in
+  (forall z, length z = 2%nat -> C03_EllN.ole OF (C03_EllN.ex_fn C03_EllN.ex_xs) (C03_EllN.ex_fn z)) /\
+  C03_EllN.ole OF (C01Q_Defs.dot C01Q_Defs.QcO (C01Q_Defs.vsub C01Q_Defs.QcO C03_EllN.ex_xs C03_EllN.ex_x0)
+                                             (C01Q_Defs.vsub C01Q_Defs.QcO C03_EllN.ex_xs C03_EllN.ex_x0))
+                  (C01Q_Defs.fmul C01Q_Defs.QcO C03_EllN.ex_R C03_EllN.ex_R) /\
+  C03_EllN.oracles_ok OF 2 C03_EllN.ex_fn C03_EllN.ex_st0 [C03_EllN.ex_o1] /\
+  C03_EllN.oracle_ok OF 2 C03_EllN.ex_fn C03_EllN.ex_st1 C03_EllN.ex_o2 /\
+  map Qcanon.this (ex C03_EllN.ex_st1) = [3 # 5; 7 # 15] /\
+  Qcanon.this (en_best _ C01Q_Defs.QcO (ebest C03_EllN.ex_st1) (ef C03_EllN.ex_o2)) = 121 # 225.
+Proof.
+  cbv zeta. split; [intros z _; apply C03_EllN.ex_min|].
+  split; [right; vm_compute; reflexivity|].
+  split; [split; [|exact I]; apply (C03_EllN.ex_oracle_ok C03_EllN.ex_st0);
+          [vm_compute; reflexivity | apply Qcanon.Qc_is_canon; vm_compute; reflexivity]|].
+  split; [apply (C03_EllN.ex_oracle_ok C03_EllN.ex_st1);
+          [vm_compute; reflexivity | apply Qcanon.Qc_is_canon; vm_compute; reflexivity]|].
+  split; vm_compute; reflexivity.
+Qed.
